@@ -1,6 +1,680 @@
-//! C16 — placeholder until the check is written
+//! C16 — diagnostics and run-time messages cite the source line that caused them.
+//!
+//! Generated programs with generator-known token positions, in several layouts (blank / comment
+//! lines in between, trailing comments, with and without a final newline).
+//!  (a) library level: every emitted instruction's source-map entry lies inside the line that
+//!      produced it (outermost macro use line; closing brace for the implied ret);
+//!  (b) real binary: 'Output of line', 'Int 3 at line', divide-error, unsupported-interrupt and
+//!      single-step messages cite the line number and text of that line;
+//!  (c) diagnostics: every token position of every template is corrupted in two ways and the file is
+//!      truncated after it; semantic errors at first / middle / last line: the reported line number,
+//!      column and line text are those of the offending token.
+
 use super::common::*;
-pub fn run(_tier: &Tier) -> i32 {
-    eprintln!("C16: not built yet");
-    2
+use crate::alu::*;
+use crate::ast::b::*;
+use crate::ast::*;
+use crate::cli::*;
+use crate::findings::*;
+use crate::pipe::*;
+use crate::refprog as rp;
+use rayon::prelude::*;
+use serde_json::json;
+use std::collections::HashMap;
+use std::sync::atomic::{AtomicU64, Ordering};
+
+#[derive(Clone, Copy, Debug, PartialEq, Eq)]
+enum Kind {
+    Print,
+    Int3,
+    DivErr,
+    Unsupp,
+}
+
+#[derive(Clone, Copy, Debug, PartialEq, Eq)]
+enum Place {
+    First,
+    Middle,
+    Last,
+    InProc,
+    InProcAfterStart,
+    InMacro,
+    InNestedMacro,
+    MacroInProc,
+}
+
+#[derive(Clone)]
+struct Template {
+    name: String,
+    prog: Program,
+    mb: HashMap<String, Vec<Item>>,
+    /// true if the run consumes prompts
+    kind: Kind,
+}
+
+fn item_of(k: Kind) -> Item {
+    match k {
+        Kind::Print => print(PrintKind::Reg),
+        Kind::Int3 => int(3),
+        Kind::DivErr => Item::Ins(Instr::MulDiv(MulOp::Div, r8("bl"))),
+        Kind::Unsupp => int(0x21),
+    }
+}
+
+fn item_text(k: Kind) -> &'static str {
+    match k {
+        Kind::Print => "print reg",
+        Kind::Int3 => "int 3",
+        Kind::DivErr => "div bl",
+        Kind::Unsupp => "int 33",
+    }
+}
+
+fn template(k: Kind, p: Place) -> Template {
+    let it = || item_of(k);
+    let mut mb: HashMap<String, Vec<Item>> = HashMap::new();
+    let mut code: Vec<Item> = Vec::new();
+    let filler1 = || un(UnOp::Inc, r16("cx"));
+    let filler2 = || un(UnOp::Inc, r16("dx"));
+    match p {
+        Place::InMacro | Place::InNestedMacro | Place::MacroInProc => {
+            code.push(Item::MacroDef("inner".into(), vec!["a".into()], format!("inc a {} dec a", item_text(k))));
+            mb.insert("inner".into(), vec![un(UnOp::Inc, r16("si")), it(), un(UnOp::Dec, r16("si"))]);
+            if p == Place::InNestedMacro {
+                code.push(Item::MacroDef("outer".into(), vec!["a".into()], "stc inner(a) cmc".into()));
+                mb.insert("outer".into(), vec![z(ZeroOp::Stc), Item::MacroUse("inner".into(), vec!["si".into()]), z(ZeroOp::Cmc)]);
+            }
+        }
+        _ => {}
+    }
+    let procdef = |code: &mut Vec<Item>| match p {
+        Place::InProc | Place::InProcAfterStart => code.push(proc("f", vec![filler1(), it(), filler2()])),
+        Place::MacroInProc => code.push(proc("f", vec![filler1(), Item::MacroUse("inner".into(), vec!["si".into()]), filler2()])),
+        _ => {}
+    };
+    if p != Place::InProcAfterStart {
+        procdef(&mut code);
+    }
+    code.push(label("start"));
+    // preconditions of the run-ending kinds
+    match k {
+        Kind::DivErr => code.push(mov(r8("bl"), imm(0))),
+        Kind::Unsupp => code.push(mov(r8("ah"), imm(0x55))),
+        _ => {}
+    }
+    if p == Place::First {
+        code.push(it());
+    }
+    code.push(filler1());
+    match p {
+        Place::Middle => code.push(it()),
+        Place::InProc | Place::MacroInProc => code.push(call("f")),
+        Place::InProcAfterStart => {
+            code.push(call("f"));
+            code.push(jmp("jmp", "over"));
+            procdef(&mut code);
+            code.push(label("over"));
+        }
+        Place::InMacro => code.push(Item::MacroUse("inner".into(), vec!["si".into()])),
+        Place::InNestedMacro => code.push(Item::MacroUse("outer".into(), vec!["si".into()])),
+        _ => {}
+    }
+    code.push(filler2());
+    if p == Place::Last {
+        code.push(it());
+    } else {
+        code.push(z(ZeroOp::Stc));
+    }
+    Template { name: format!("{:?}/{:?}", k, p), prog: Program { data: vec![db(Some("bv"), 0), dw(Some("wv"), 0x1234)], code }, mb, kind: k }
+}
+
+/// several items in one program (only for the kinds that do not end the run)
+fn multi(k: Kind) -> Template {
+    let it = || item_of(k);
+    let mut mb = HashMap::new();
+    let mut code = Vec::new();
+    code.push(Item::MacroDef("inner".into(), vec!["a".into()], format!("inc a {} dec a", item_text(k))));
+    mb.insert("inner".into(), vec![un(UnOp::Inc, r16("si")), it(), un(UnOp::Dec, r16("si"))]);
+    code.push(proc("f", vec![it(), Item::MacroUse("inner".into(), vec!["si".into()])]));
+    code.push(label("start"));
+    code.push(it());
+    code.push(call("f"));
+    code.push(mov(r16("cx"), imm(2)));
+    code.push(label("again"));
+    code.push(it());
+    code.push(jmp("loop", "again"));
+    code.push(Item::MacroUse("inner".into(), vec!["si".into()]));
+    code.push(it());
+    Template { name: format!("{:?}/multi", k), prog: Program { data: vec![db(Some("bv"), 0)], code }, mb, kind: k }
+}
+
+fn templates() -> Vec<Template> {
+    let mut v = Vec::new();
+    for k in [Kind::Print, Kind::Int3, Kind::DivErr, Kind::Unsupp] {
+        for p in [Place::First, Place::Middle, Place::Last, Place::InProc, Place::InProcAfterStart, Place::InMacro, Place::InNestedMacro, Place::MacroInProc] {
+            v.push(template(k, p));
+        }
+    }
+    v.push(multi(Kind::Print));
+    v.push(multi(Kind::Int3));
+    v
+}
+
+#[derive(Clone, Copy, Debug, PartialEq, Eq)]
+enum Filler {
+    None,
+    Blank,
+    Comment,
+    Both,
+}
+
+#[derive(Clone, Copy, Debug)]
+struct Layout {
+    filler: Filler,
+    trailing_comment: bool,
+    final_newline: bool,
+    leading: bool,
+}
+
+fn layouts(with_comments: bool) -> Vec<Layout> {
+    let mut v = Vec::new();
+    for final_newline in [true, false] {
+        v.push(Layout { filler: Filler::None, trailing_comment: false, final_newline, leading: false });
+        v.push(Layout { filler: Filler::Blank, trailing_comment: false, final_newline, leading: true });
+        if with_comments {
+            v.push(Layout { filler: Filler::Comment, trailing_comment: true, final_newline, leading: true });
+            v.push(Layout { filler: Filler::Both, trailing_comment: false, final_newline, leading: false });
+            v.push(Layout { filler: Filler::None, trailing_comment: true, final_newline, leading: false });
+        }
+    }
+    v
+}
+
+/// lay out canonical lines; returns (text, actual line number of each canonical line (1-based index))
+fn lay_out(lines: &[String], l: &Layout) -> (String, Vec<usize>) {
+    let mut out: Vec<String> = Vec::new();
+    let mut map = vec![0usize; lines.len() + 1];
+    let fill = |out: &mut Vec<String>, k: usize| match l.filler {
+        Filler::None => {}
+        Filler::Blank => out.push(String::new()),
+        Filler::Comment => out.push(format!("; note {} mov ax, 1", k)),
+        Filler::Both => {
+            out.push("   ".into());
+            out.push(format!(";; {}", k));
+            if k % 3 == 0 {
+                out.push(String::new());
+            }
+        }
+    };
+    if l.leading {
+        fill(&mut out, 0);
+    }
+    for (i, line) in lines.iter().enumerate() {
+        if i > 0 {
+            fill(&mut out, i);
+        }
+        let mut t = line.clone();
+        if l.trailing_comment {
+            t.push_str(if i % 2 == 0 { " ; trailing note" } else { ";x" });
+        }
+        out.push(t);
+        map[i + 1] = out.len();
+    }
+    let mut text = out.join("\n");
+    if l.final_newline {
+        text.push('\n');
+    }
+    (text, map)
+}
+
+fn canon_lines(p: &Program) -> Vec<String> {
+    program_lines(p).iter().map(|t| join_toks(t)).collect()
+}
+
+fn remap(events: &[rp::Ev], map: &[usize]) -> Vec<rp::Ev> {
+    events
+        .iter()
+        .map(|e| match e {
+            rp::Ev::Print { line, kind, regs, bytes } => rp::Ev::Print { line: map[*line], kind: kind.clone(), regs: *regs, bytes: bytes.clone() },
+            rp::Ev::DivErr { line } => rp::Ev::DivErr { line: map[*line] },
+            rp::Ev::Unsupported { line, int, ah } => rp::Ev::Unsupported { line: map[*line], int: *int, ah: *ah },
+            rp::Ev::Int3 { line } => rp::Ev::Int3 { line: map[*line] },
+            rp::Ev::StepPrompt { line, tf } => rp::Ev::StepPrompt { line: map[*line], tf: *tf },
+            other => other.clone(),
+        })
+        .collect()
+}
+
+/// 1-based line number and 0-based column of a byte offset
+fn line_col(text: &str, pos: usize) -> (usize, usize, String) {
+    let pos = pos.min(text.len());
+    let before = &text[..pos];
+    let line = before.matches('\n').count() + 1;
+    let start = before.rfind('\n').map(|i| i + 1).unwrap_or(0);
+    let end = text[start..].find('\n').map(|i| start + i).unwrap_or(text.len());
+    (line, pos - start, text[start..end].to_string())
+}
+
+fn strip_comment(l: &str) -> String {
+    match l.find(';') {
+        Some(i) => l[..i].trim().to_string(),
+        None => l.trim().to_string(),
+    }
+}
+
+/// parse the first line of a diagnostic: (line, column, the rest of the header)
+fn parse_diag(out: &str) -> Option<(usize, Option<usize>, String)> {
+    let first = out.lines().find(|l| !l.trim().is_empty())?;
+    let re = regex::Regex::new(r"(?i)\bat (?:line )?(\d+)\s*(?::\s*(\d+))?\s*:?(.*)$").unwrap();
+    let c = re.captures(first)?;
+    let line: usize = c[1].parse().ok()?;
+    let col = c.get(2).and_then(|m| m.as_str().parse().ok());
+    Some((line, col, c.get(3).map(|m| m.as_str().to_string()).unwrap_or_default()))
+}
+
+struct Stats {
+    lib_entries: AtomicU64,
+    cli_msgs: AtomicU64,
+    diag_exact: AtomicU64,
+    diag_later: AtomicU64,
+    diag_total: AtomicU64,
+    still_valid: AtomicU64,
+}
+
+/// (a) library level
+fn check_source_map(rep: &Reporter, c: &Counters, st: &Stats, t: &Template, lay: &Layout) {
+    let lines = canon_lines(&t.prog);
+    let (text, map) = lay_out(&lines, lay);
+    let flat = rp::flatten(&t.prog, &t.mb);
+    c.add_exec(1);
+    let asm = match assemble_fresh_cached(&text) {
+        Ok(a) => a,
+        Err(e) => {
+            c.block(format!("{}: {:?}", t.name, e));
+            return;
+        }
+    };
+    let viol = |field: &str, expected: String, got: String| {
+        rep.report(Viol { site: format!("source map / {}", t.name), field: field.into(), vars: vec![], got_val: None, expected, got, case: json!({"src": text, "layout": format!("{:?}", lay)}), weight: text.len() as u64 });
+    };
+    if asm.code.len() != flat.ins.len() {
+        viol("count", format!("{} emitted instructions", flat.ins.len()), format!("{}: {:?}", asm.code.len(), asm.code));
+        return;
+    }
+    for (i, fi) in flat.ins.iter().enumerate() {
+        st.lib_entries.fetch_add(1, Ordering::Relaxed);
+        let want = map[fi.line];
+        match asm.source_map.get(&i) {
+            None => viol("missing", format!("a source position for instruction {} ({})", i, asm.code[i]), "none".into()),
+            Some(pos) => {
+                let (l, _, txt) = line_col(&text, *pos);
+                if l != want || *pos > text.len() {
+                    viol(
+                        if fi.implied { "implied-ret line" } else if fi.from_macro { "macro line" } else { "line" },
+                        format!("instruction {} ({}) maps into line {} ({:?})", i, asm.code[i], want, text.lines().nth(want - 1).unwrap_or("")),
+                        format!("offset {} = line {} ({:?})", pos, l, txt),
+                    );
+                }
+            }
+        }
+    }
+}
+
+fn assemble_fresh_cached(text: &str) -> Result<Asm, AsmErr> {
+    assemble(text)
+}
+
+/// (b) run-time messages through the binary
+fn check_messages(rep: &Reporter, c: &Counters, st: &Stats, t: &Template, lay: &Layout, interpreted: bool) {
+    let lines = canon_lines(&t.prog);
+    let (text, map) = lay_out(&lines, lay);
+    let flat = rp::flatten(&t.prog, &t.mb);
+    let stdin_lines: Vec<String> = vec!["n".to_string(); 80];
+    let rr = rp::run(&flat, &rp::RunOpts { stdin: stdin_lines.clone(), interpreted, horizon: 2000, dos_0a: false, rep_prompt_per_iteration: false });
+    let events = remap(&rr.events, &map);
+    let mut o = CliOpts::default();
+    o.interpreted = interpreted;
+    let stdin = "n\n".repeat(80);
+    let out = run_cli(&text, &stdin, &o);
+    c.add_exec(1);
+    st.cli_msgs.fetch_add(events.iter().filter(|e| matches!(e, rp::Ev::Print { .. } | rp::Ev::DivErr { .. } | rp::Ev::Unsupported { .. } | rp::Ev::Int3 { .. } | rp::Ev::StepPrompt { .. })).count() as u64, Ordering::Relaxed);
+    let res = if let Some(a) = out.abnormal() {
+        Some(("exit".to_string(), "normal termination".to_string(), format!("{}: {}", a, out.summary())))
+    } else {
+        // the messages show the comment-stripped text of the line
+        let mut m = crate::cliobs::Matcher::new(&out.stdout, &text);
+        match m.match_all(&events) {
+            Ok(()) => None,
+            Err(e) => Some((e.field, e.expected, format!("event #{} of {}; {}", e.event_index, events.len(), e.got))),
+        }
+    };
+    c.outcome(&format!("{:?}/{}", rr.stop, res.is_none()));
+    let site = format!("{} / {}", if interpreted { "step message" } else { "run-time message" }, t.name);
+    report_cli(rep, &site, res, &text, &stdin_lines, interpreted, &out, json!(format!("{:?}", lay)));
+}
+
+#[derive(Clone, Debug)]
+struct DiagCase {
+    site: String,
+    text: String,
+    /// generator-known offset of the corrupted token (None for semantic errors)
+    tok_off: Option<usize>,
+    /// admissible (line, text) pairs for semantic errors
+    sem_lines: Vec<usize>,
+    what: String,
+    must_be_at_token: bool,
+}
+
+/// token-level corruptions of a laid-out program
+fn corruptions(t: &Template, lay: &Layout, every: usize) -> Vec<DiagCase> {
+    let toks = program_lines(&t.prog);
+    // render each line with token offsets
+    let mut lines: Vec<String> = Vec::new();
+    let mut offs: Vec<Vec<(usize, usize)>> = Vec::new();
+    for l in toks.iter() {
+        let mut s = String::new();
+        let mut o = Vec::new();
+        for (i, tk) in l.iter().enumerate() {
+            if i > 0 && tk.space_before {
+                s.push(' ');
+            }
+            o.push((s.len(), tk.text.len()));
+            s.push_str(&tk.text);
+        }
+        lines.push(s);
+        offs.push(o);
+    }
+    let (text, map) = lay_out(&lines, lay);
+    // start offset of each actual line
+    let mut line_start = vec![0usize];
+    for (i, ch) in text.bytes().enumerate() {
+        if ch == b'\n' {
+            line_start.push(i + 1);
+        }
+    }
+    let mut out = Vec::new();
+    let mut n = 0usize;
+    for (li, l) in toks.iter().enumerate() {
+        for (ti, tk) in l.iter().enumerate() {
+            n += 1;
+            if n % every != 0 {
+                continue;
+            }
+            let (o, len) = offs[li][ti];
+            let abs = line_start[map[li + 1] - 1] + o;
+            let raw = tk.kind == TokKind::Raw;
+            // 1. a character that is no token, put in front of the token
+            {
+                let mut s = text.clone();
+                s.insert_str(abs, "@ ");
+                out.push(DiagCase { site: format!("invalid character / {}", t.name), text: s, tok_off: Some(abs), sem_lines: vec![], what: format!("'@' inserted before token {:?} (line {}, column {})", tk.text, map[li + 1], o), must_be_at_token: true });
+            }
+            // 2. a valid token that cannot occur there, replacing the token
+            if !raw {
+                let mut s = text.clone();
+                s.replace_range(abs..abs + len, ")");
+                out.push(DiagCase { site: format!("unexpected token / {}", t.name), text: s, tok_off: Some(abs), sem_lines: vec![], what: format!("token {:?} replaced by ')' (line {}, column {})", tk.text, map[li + 1], o), must_be_at_token: false });
+            }
+            // 3. the file ends after the token
+            {
+                let s = text[..abs + len].to_string();
+                out.push(DiagCase { site: format!("truncated / {}", t.name), text: s, tok_off: Some(abs + len), sem_lines: vec![], what: format!("file ends after token {:?} (line {})", tk.text, map[li + 1]), must_be_at_token: false });
+            }
+        }
+    }
+    out
+}
+
+/// semantic errors at first / middle / last line
+fn semantic_cases(lay: &Layout) -> Vec<DiagCase> {
+    let mut out = Vec::new();
+    let base: Vec<&str> = vec!["bv: db 1", "wv: dw 2", "def f {", "inc bx", "}", "start:", "inc cx", "again:", "inc dx", "call f", "stc"];
+    let bad: Vec<(&str, &str, Option<&str>)> = vec![
+        ("constant out of range", "mov al, 256", None),
+        ("constant out of range", "add word wv, 65536", None),
+        ("constant out of range", "mov ax, word [bx, 70000]", None),
+        ("undefined label", "jmp nowhere", None),
+        ("undefined label", "loop nowhere", None),
+        ("unknown procedure", "call nowhere", None),
+        ("unknown data name", "mov al, byte nowhere", None),
+        ("mixed sizes", "mov al, bx", None),
+        ("code label as data", "mov ax, word start", None),
+        ("duplicate label", "again:", Some("again:")),
+        ("duplicate label", "start:", Some("start:")),
+        ("unknown macro", "nomacro(ax)", None),
+    ];
+    // positions: first code line (after start:), middle, last
+    for (class, line, dup_of) in bad.iter() {
+        for pos in [6usize, 8, base.len()] {
+            let mut lines: Vec<String> = base.iter().map(|s| s.to_string()).collect();
+            lines.insert(pos, line.to_string());
+            let (text, map) = lay_out(&lines, lay);
+            let mut sem = vec![map[pos + 1]];
+            if let Some(d) = dup_of {
+                // the first definition is an admissible citation for a duplicate definition
+                for (i, l) in lines.iter().enumerate() {
+                    if l == d && i != pos {
+                        sem.push(map[i + 1]);
+                    }
+                }
+            }
+            out.push(DiagCase { site: format!("semantic / {}", class), text, tok_off: None, sem_lines: sem, what: format!("{:?} inserted as canonical line {}", line, pos + 1), must_be_at_token: false });
+        }
+    }
+    // data-side errors at first / last data line
+    for (class, line) in [("constant out of range", "db 256"), ("constant out of range", "dw [70000]"), ("duplicate label", "bv: db 9")] {
+        for pos in [0usize, 2] {
+            let mut lines: Vec<String> = base.iter().map(|s| s.to_string()).collect();
+            lines.insert(pos, line.to_string());
+            let (text, map) = lay_out(&lines, lay);
+            let mut sem = vec![map[pos + 1]];
+            if class == "duplicate label" {
+                for (i, l) in lines.iter().enumerate() {
+                    if l.starts_with("bv:") && i != pos {
+                        sem.push(map[i + 1]);
+                    }
+                }
+            }
+            out.push(DiagCase { site: format!("semantic / {}", class), text, tok_off: None, sem_lines: sem, what: format!("{:?} inserted as canonical line {}", line, pos + 1), must_be_at_token: false });
+        }
+    }
+    out
+}
+
+fn check_diag(rep: &Reporter, c: &Counters, st: &Stats, d: &DiagCase) {
+    c.add_exec(1);
+    // the driver strips comments first; positions refer to the stripped text, which keeps all line
+    // numbers and all columns left of a comment
+    let re = regex::Regex::new(r";.*\n?").unwrap();
+    let stripped = re.replace_all(&d.text, "\n").to_string();
+    let lib = assemble(&stripped);
+    let out = run_cli(&d.text, "", &CliOpts::default());
+    let viol = |field: &str, expected: String, got: String| {
+        let got = format!("{} | {}", d.what, got);
+        if rep.absorbed_by(&d.site, field, &[], None, &got) {
+            return;
+        }
+        rep.report(Viol { site: d.site.clone(), field: field.into(), vars: vec![], got_val: None, expected, got, case: json!({"src": d.text, "stdin": "", "what": d.what}), weight: d.text.len() as u64 });
+    };
+    if let Some(a) = out.abnormal() {
+        viol("abort", "a diagnostic".into(), format!("{}: {}", a, out.summary()));
+        return;
+    }
+    let stdout = out.out();
+    // where is the error, according to the real Preprocessor?
+    let (want_line, want_col, want_text): (Vec<usize>, Option<usize>, Option<String>) = match (&lib, d.tok_off) {
+        (Err(AsmErr::Panic(p)), _) => {
+            viol("abort", "a diagnostic".into(), format!("library panic {}", p));
+            return;
+        }
+        (Ok(a), None) => {
+            // driver-level semantic error (undefined label): still must be refused and cite the line
+            if a.driver_accepts().is_ok() {
+                viol("not-refused", "refused".into(), format!("accepted; stdout {:?}", stdout));
+                return;
+            }
+            (d.sem_lines.clone(), None, None)
+        }
+        (Ok(a), Some(_)) => {
+            // the corruption left a valid program (e.g. ')' closing an argument list, truncation after a
+            // complete statement): nothing to check unless the driver-level checks refuse it
+            st.still_valid.fetch_add(1, Ordering::Relaxed);
+            if a.driver_accepts().is_ok() {
+                return;
+            }
+            // an undefined label / missing start caused by the corruption: the line cited must exist
+            (vec![], None, None)
+        }
+        (Err(AsmErr::Diag { pos, .. }), Some(tok)) => {
+            st.diag_total.fetch_add(1, Ordering::Relaxed);
+            let p = match pos {
+                Some(p) => *p,
+                None => {
+                    viol("position", "a diagnostic with a position".into(), "the Preprocessor's error carries no position".into());
+                    return;
+                }
+            };
+            // everything before the corrupted token is a viable prefix of a valid program
+            if p < tok.min(stripped.len()) && !(p == stripped.len()) {
+                // positions inside the token's own line but before it would be a wrong citation
+                let (l1, _, _) = line_col(&stripped, p);
+                let (l2, _, _) = line_col(&stripped, tok);
+                if l1 != l2 {
+                    viol("position", format!("an error at or after offset {} (line {})", tok, l2), format!("error position {} (line {})", p, l1));
+                    return;
+                }
+            }
+            if p == tok {
+                st.diag_exact.fetch_add(1, Ordering::Relaxed);
+            } else {
+                st.diag_later.fetch_add(1, Ordering::Relaxed);
+                if d.must_be_at_token {
+                    viol("position", format!("the error at offset {}", tok), format!("error position {}", p));
+                    return;
+                }
+            }
+            // end of input: the last line that has a token is the offending line
+            let mut p2 = p.min(stripped.len());
+            if p2 >= stripped.trim_end().len() {
+                p2 = stripped.trim_end().len().saturating_sub(1);
+            }
+            let (l, col, _) = line_col(&stripped, p2);
+            let col = if p2 == p { Some(col) } else { None };
+            (vec![l], col, None)
+        }
+        (Err(AsmErr::Diag { .. }), None) => (d.sem_lines.clone(), None, None),
+    };
+    let _ = want_text;
+    if stdout.trim().is_empty() {
+        viol("no-diagnostic", "a diagnostic".into(), "empty stdout".into());
+        return;
+    }
+    if stdout.contains("Output of line") || stdout.contains(">>>") {
+        viol("executed", "a diagnostic, nothing executed".into(), stdout.clone());
+        return;
+    }
+    if want_line.is_empty() {
+        return;
+    }
+    match parse_diag(&stdout) {
+        None => viol("line", format!("a diagnostic citing line {:?}", want_line), format!("no line number in {:?}", stdout)),
+        Some((line, col, rest)) => {
+            c.outcome("diagnostic with line");
+            if !want_line.contains(&line) {
+                viol("line", format!("line {:?}", want_line), format!("line {}: {:?}", line, stdout));
+                return;
+            }
+            let src_line = d.text.split('\n').nth(line - 1).unwrap_or("");
+            let want_txt = strip_comment(src_line);
+            let shown = rest.trim().trim_end_matches(':').trim();
+            let shown_txt = strip_comment(shown);
+            // the header ends with the text of the cited line
+            if !(shown_txt == want_txt || (shown_txt.ends_with(&want_txt) && !want_txt.is_empty())) {
+                viol("linetext", format!("the text of line {}: {:?}", line, want_txt), format!("{:?}", stdout));
+                return;
+            }
+            if let Some(wc) = want_col {
+                match col {
+                    None => viol("column", format!("column {} (or {})", wc, wc + 1), format!("no column in {:?}", stdout)),
+                    Some(cc) => {
+                        if cc != wc && cc != wc + 1 {
+                            viol("column", format!("column {} (0-based) or {} (1-based)", wc, wc + 1), format!("column {}: {:?}", cc, stdout));
+                        }
+                    }
+                }
+            } else if let Some(cc) = col {
+                // semantic errors: the column must at least lie inside the line
+                if cc > src_line.len() + 1 {
+                    viol("column", format!("a column inside the line (length {})", src_line.len()), format!("column {}: {:?}", cc, stdout));
+                }
+            }
+        }
+    }
+}
+
+pub fn run(tier: &Tier) -> i32 {
+    let rep_o = Reporter::new("C16", tier.name());
+    let c_o = Counters::default();
+    let rep = &rep_o;
+    let c = &c_o;
+    ensure_bin();
+    let ts = templates();
+    let st = Stats { lib_entries: AtomicU64::new(0), cli_msgs: AtomicU64::new(0), diag_exact: AtomicU64::new(0), diag_later: AtomicU64::new(0), diag_total: AtomicU64::new(0), still_valid: AtomicU64::new(0) };
+    // the templates must be valid and run to the expected end in the reference
+    for t in ts.iter() {
+        let src = render(&t.prog);
+        if let Err(e) = assemble(&src) {
+            eprintln!("MACHINERY: C16 template {} is rejected: {:?}\n{}", t.name, e, src);
+            return 2;
+        }
+    }
+    // (a) library level: blank-line layouts (comment stripping is the driver's job)
+    let lib_work: Vec<(usize, Layout)> = (0..ts.len()).flat_map(|i| layouts(false).into_iter().map(move |l| (i, l))).collect();
+    lib_work.par_iter().for_each(|(i, l)| check_source_map(rep, c, &st, &ts[*i], l));
+    // (b) messages through the binary, all layouts, plain and -i
+    let cli_work: Vec<(usize, Layout, bool)> = (0..ts.len()).flat_map(|i| layouts(true).into_iter().flat_map(move |l| [(i, l, false), (i, l, true)])).collect();
+    cli_work.par_iter().for_each(|(i, l, interp)| check_messages(rep, c, &st, &ts[*i], l, *interp));
+    // (c) diagnostics
+    let mut diag: Vec<DiagCase> = Vec::new();
+    let lays = layouts(true);
+    let diag_lays: Vec<Layout> = if tier.thorough { lays.clone() } else { vec![lays[0], lays[2], lays[6], lays[8]] };
+    for (ti, t) in ts.iter().enumerate() {
+        // quick: every template, every third token, rotating; thorough: every token
+        let every = if tier.thorough { 1 } else { 3 };
+        if !tier.thorough && t.kind != Kind::Print && ti % 4 != 1 {
+            continue;
+        }
+        for l in diag_lays.iter() {
+            diag.extend(corruptions(t, l, every));
+        }
+    }
+    for l in lays.iter() {
+        diag.extend(semantic_cases(l));
+    }
+    diag.par_iter().for_each(|d| check_diag(rep, c, &st, d));
+    for d in diag.iter().step_by(diag.len() / 6 + 1) {
+        c.sample(json!({"site": d.site, "what": d.what, "src": d.text}));
+    }
+    for t in ts.iter().step_by(7) {
+        c.sample(json!({"template": t.name, "canonical_source": render(&t.prog)}));
+    }
+    c.states.fetch_add((lib_work.len() + cli_work.len() + diag.len()) as u64, Ordering::Relaxed);
+    let exact = st.diag_exact.load(Ordering::Relaxed);
+    let total = st.diag_total.load(Ordering::Relaxed);
+    if st.lib_entries.load(Ordering::Relaxed) < 1000 || st.cli_msgs.load(Ordering::Relaxed) < 2000 || total < 500 || exact * 10 < total * 8 {
+        eprintln!("MACHINERY: C16 explored too little (lib entries {}, messages {}, diagnostics {} of which {} exactly at the corrupted token)", st.lib_entries.load(Ordering::Relaxed), st.cli_msgs.load(Ordering::Relaxed), total, exact);
+        return 2;
+    }
+    let mut cov = Coverage::default();
+    cov.exhaustive = true;
+    cov.rule = format!("{} templates = 4 item kinds (print, INT 3, divide error, unsupported AH) x 8 placements (first / middle / last line, inside a procedure defined before or after start, inside a macro body, inside nested macros, macro used inside a procedure) plus two multi-item programs with loops; layouts = {{no filler, blank lines, comment-only lines, mixed}} x {{trailing comments or not}} x {{final newline or not}} (10 layouts). (a) library level: for every emitted instruction the source-map offset must lie in the line of the instruction (macro output: outermost use line; implied ret: closing brace). (b) every template x every layout through the real binary, plain and with -i (every instruction is then preceded by a step message): line numbers and line texts of all messages are matched. (c) diagnostics: for {} token positions: '@' inserted before the token, the token replaced by ')', the file truncated after the token; plus 12 semantic errors at first / middle / last line and 3 data-side errors in all 10 layouts; the position the real Preprocessor reports is cross-checked against the generator-known token offset, and the binary's message must cite that line, column (0- or 1-based) and line text", ts.len(), if tier.thorough { "all" } else { "every third of the" });
+    cov.bounds = json!({"templates": ts.len(), "library_runs": lib_work.len(), "source_map_entries_checked": st.lib_entries.load(Ordering::Relaxed), "message_runs": cli_work.len(), "messages_checked": st.cli_msgs.load(Ordering::Relaxed), "diagnostic_runs": diag.len(), "syntax_diagnostics": total, "reported_exactly_at_corrupted_token": exact, "reported_later_than_corrupted_token": st.diag_later.load(Ordering::Relaxed), "corruptions_leaving_a_valid_program": st.still_valid.load(Ordering::Relaxed), "tier": tier.name()});
+    cov.assumptions = common_assumptions();
+    cov.assumptions.push("line text in messages is compared modulo the ';' comment and surrounding white space; line numbers exactly; columns 0- or 1-based".into());
+    cov.assumptions.push("a duplicate definition may be reported at the first or at the repeated definition".into());
+    cov.assumptions.push("for an unexpected end of input the offending line is the last line that holds a token".into());
+    cov.cli_runs = CLI_RUNS.load(Ordering::Relaxed);
+    cov.distinct_nontrivial = (lib_work.len() + cli_work.len() + diag.len()) as u64;
+    let cov = finish_cov(c, cov);
+    rep.finish(cov)
 }
